@@ -111,11 +111,11 @@ Section Steps1.
     - left. reflexivity.
   Qed.
 
-  Lemma step_selfack : forall s id,
-    Inv F s -> n_role (nodes s id) = Leader ->
-    Inv F (set_node s id (set_match (upd (n_match (nodes s id)) id (length (n_log (nodes s id)))) (nodes s id))).
+  Lemma step_selfack : forall s id k,
+    Inv F s -> n_role (nodes s id) = Leader -> k <= length (n_log (nodes s id)) ->
+    Inv F (set_node s id (set_match (upd (n_match (nodes s id)) id k) (nodes s id))).
   Proof.
-    intros s id I Hr.
+    intros s id k I Hr Hk.
     apply inv_gsame; try assumption; cbn [set_match n_term n_log n_vote n_role n_commit n_votes n_match].
     - lia.
     - reflexivity.
@@ -125,6 +125,21 @@ Section Steps1.
     - intros _ x. destruct (Nat.eq_dec x id) as [Ex|Hx].
       + subst x. rewrite upd_same. pose proof (hK11 _ _ I id Hr) as H. unfold nd in H. lia.
       + rewrite upd_other by exact Hx. apply (hK5 _ _ I id x Hr).
+    - left. reflexivity.
+  Qed.
+
+  Lemma step_lower : forall s id f,
+    Inv F s -> (forall x, f x <= n_match (nodes s id) x) ->
+    Inv F (set_node s id (set_match f (nodes s id))).
+  Proof.
+    intros s id f I Hf.
+    apply inv_gsame; try assumption; cbn [set_match n_term n_log n_vote n_role n_commit n_votes n_match].
+    - lia.
+    - reflexivity.
+    - left. split; reflexivity.
+    - right. split; reflexivity.
+    - intros Hr x Hv. apply (hA5 _ _ I id x Hr Hv).
+    - intros Hr x. pose proof (hK5 _ _ I id x Hr) as H5. unfold nd in H5. pose proof (Hf x). lia.
     - left. reflexivity.
   Qed.
 
